@@ -7,6 +7,7 @@ import (
 
 	"github.com/internetarchive/Zeno/internal/pkg/log"
 	"github.com/internetarchive/Zeno/internal/pkg/source/lq/sqlc_model"
+	"github.com/internetarchive/Zeno/internal/pkg/verifhook"
 )
 
 // producerBatch represents a batch of URLs to be added to LQ.
@@ -85,6 +86,7 @@ func producerReceiver(ctx context.Context, wg *sync.WaitGroup, batchCh chan *pro
 			logger.Debug("closing")
 			return
 		case item := <-globalLQ.produceCh:
+			verifhook.At("lq.prod.recv", item)
 			URL := sqlc_model.Url{
 				Value: item.GetURL().Raw,
 				Via:   item.GetSeedVia(),
@@ -95,6 +97,7 @@ func producerReceiver(ctx context.Context, wg *sync.WaitGroup, batchCh chan *pro
 				logger.Debug("sending batch to dispatcher", "size", len(batch.URLs))
 				// Send the batch to batchCh.
 				copyBatch := *batch
+				verifhook.At("lq.prod.cut", "size", copyBatch.URLs)
 				select {
 				case <-ctx.Done():
 					logger.Debug("closed")
@@ -107,9 +110,11 @@ func producerReceiver(ctx context.Context, wg *sync.WaitGroup, batchCh chan *pro
 				ticker.Reset(maxWaitTime)
 			}
 		case <-ticker.C:
+			verifhook.At("lq.prod.tick", len(batch.URLs))
 			if len(batch.URLs) > 0 {
 				logger.Debug("sending non-full batch to dispatcher", "size", len(batch.URLs))
 				copyBatch := *batch
+				verifhook.At("lq.prod.cut", "timer", copyBatch.URLs)
 				select {
 				case <-ctx.Done():
 					logger.Debug("closed")
@@ -137,9 +142,11 @@ func producerDispatcher(ctx context.Context, wg *sync.WaitGroup, batchCh chan *p
 		case <-ctx.Done():
 			return
 		case batch := <-batchCh:
+			verifhook.At("lq.prod.add", batch.URLs)
 			logger.Debug("dispatching batch to sender", "size", len(batch.URLs))
 			if err := globalLQ.client.Add(ctx, batch.URLs, false); err != nil {
 				logger.Error("failed to send batch to LQ", "error", err)
+				verifhook.Obs("lq.prod.add.error", batch.URLs, err)
 			}
 		}
 	}
